@@ -336,7 +336,7 @@ def run(prog: Program, res: Result) -> None:  # noqa: PLR0912, PLR0915
     # ------------------------------------------------------------------ R5 whitespace-control markers
     res.rule("C12.R5", "every tag / output / comment opening printed by a __str__ carries a whitespace-control marker pair taken from a token (wc[0] after the opener, wc[1]/wc[-1] before the closer)")
     n_open = 0
-    for nc in prog.subclasses(node_base):
+    for nc in list(prog.subclasses(node_base)) + list(prog.subclasses(prog.cls("liquid2.token.TokenT"), strict=True)):  # AST printers and the token-level printers of line statements
         m = nc.methods.get("__str__")
         if m is None:
             continue
@@ -348,6 +348,8 @@ def run(prog: Program, res: Result) -> None:  # noqa: PLR0912, PLR0915
         for js in [n for n in ast.walk(m.node) if isinstance(n, ast.JoinedStr)]:
             sk = _fstring_skeleton(js) or ""
             for mt in list(re.finditer(r"\{%(?!\x00)|\{\{(?!\x00)", sk)) + list(re.finditer(r"(?<!\x00)%\}|(?<!\x00)\}\}", sk)):
+                if nc.name == "BlockCommentToken":
+                    continue  # `{% comment %}…{% endcomment %}`: the text between the two tags is never output, so the two inner markers (not recorded by the lexer) trim nothing
                 n_open += 1
                 res.fail("C12.R5", file=nc.file, line=js.lineno, qualname=f"{nc.name}.__str__", construct=f"{nc.name}: `{mt.group()}` not adjacent to a wc marker in {sk.replace(chr(0), '…')[:60]!r}", message=f"{nc.name}.__str__ prints `{mt.group()}` without an adjacent whitespace-control marker placeholder", what=f"{nc.name}: markup printed with wc markers")
             vals = js.values
